@@ -35,9 +35,9 @@ def main(argv):
         import others
         table.update(others.TABLE)
         queuefam.EXTRA_PLANS["C12"] = [others.LIMITS, others.RELOAD_SWEEPS, others.CONCX]
-        queuefam.EXTRA_PLANS["C02"] = [others.RELOAD_SWEEPS]
+        queuefam.EXTRA_PLANS["C02"] = [others.RELOAD_SWEEPS, others.CONCX]
         queuefam.EXTRA_PLANS["C03"] = [others.LEASECONC, others.PULLOPS]
-        queuefam.EXTRA_PLANS["C04"] = [others.PULLOPS, others.LEASECONC]
+        queuefam.EXTRA_PLANS["C04"] = [others.PULLOPS, others.LEASECONC, others.CONCX]
         queuefam.EXTRA_PLANS["C05"] = [others.PULLOPS, others.LONGPOLL, others.RELOAD_SWEEPS, others.OPFRONT]
         queuefam.EXTRA_PLANS["C14"] = [others.OPFRONT]
     except ImportError:
